@@ -18,6 +18,10 @@ def theta_table(b):
     if th is None:
         return None
     t = strip(b.term_local(th))
+    if not (isinstance(t, tuple) and t[0] == 'agg' and t[1] == 'array'):
+        ur = util.unrolled_rows(b, th)
+        if ur is not None:
+            t = ('agg', 'array') + tuple(ur)
     if isinstance(t, tuple) and t[0] == 'agg' and t[1] == 'array':
         rows = []
         for r in t[2:]:
